@@ -5,7 +5,7 @@ use proptest::test_runner::{Config, RngSeed, TestRunner};
 
 use model::gen::lexing_defs;
 use model::prep::prepare;
-use model::set::{render_module, stress_defs, SubjectDef, SubjectSet};
+use model::set::{path_defs, render_module, stress_defs, SubjectDef, SubjectSet};
 
 fn main() {
     println!("cargo:rerun-if-changed=build.rs");
@@ -26,6 +26,13 @@ fn main() {
         defs.push(SubjectDef { family: "core".into(), def, skip_log, has_value: vec![], error_cb: false, twin });
     }
     defs.extend(stress_defs().into_iter().filter(|d| d.family == "stress"));
+    // the fixed members of the core family (emitter / graph paths), when the current tree accepts them
+    for sd in path_defs() {
+        if prepare(&sd.def).is_ok() {
+            let twin = { let mut t = sd.def.clone(); t.utf8 = false; sd.def.utf8 && prepare(&t).is_ok() };
+            defs.push(SubjectDef { twin, ..sd });
+        }
+    }
     for d in defs.iter_mut() {
         d.family = "core".into();
     }
